@@ -8,6 +8,8 @@
 
 __all__ = """
 SHOW_INFORMATIONAL_MESSAGES
+check_workers
+put_to_workers
 resolve_parallelism
 """.split()
 
@@ -71,3 +73,57 @@ def resolve_parallelism(parallel):
         return parallel
 
     return 1
+
+
+def check_workers(workers):
+    """Raise an exception if any worker process has exited abnormally.
+
+    Parameters
+    ----------
+    workers : iterable of :class:`multiprocessing.Process`
+        The worker processes to check.
+
+    Notes
+    -----
+    An exception escaping from a worker's main function only terminates that
+    worker (after printing a traceback). The parent process must call this
+    function to notice that the overall operation has failed.
+    """
+    for w in workers:
+        code = w.exitcode
+
+        if code is not None and code != 0:
+            raise Exception(
+                f"parallel processing failed: worker process {w.name} exited "
+                f"with code {code} (its error should be reported above)"
+            )
+
+
+def put_to_workers(queue, item, workers, done_event):
+    """Enqueue a work item, giving up if the workers are failing rather than
+    consuming the queue.
+
+    Parameters
+    ----------
+    queue : :class:`multiprocessing.Queue`
+        The (bounded) queue feeding the workers.
+    item : object
+        The item to enqueue.
+    workers : iterable of :class:`multiprocessing.Process`
+        The worker processes.
+    done_event : :class:`multiprocessing.Event`
+        The event telling the workers to exit once the queue is empty. It is
+        set if this function raises, so that surviving workers do not linger.
+    """
+    from queue import Full
+
+    while True:
+        try:
+            queue.put(item, True, timeout=1)
+            return
+        except Full:
+            try:
+                check_workers(workers)
+            except Exception:
+                done_event.set()
+                raise
